@@ -14,6 +14,7 @@ def plan(tier, seed, quick_n=220, thorough_n=3000, quick_k=15, thorough_k=48):
     n = quick_n if tier == "quick" else thorough_n
     shards = [{"kind": "layout", "sub": i, "n": n} for i in range(k)]
     shards.append({"kind": "clusters"})
+    shards.append({"kind": "direct-solver", "n": 150 if tier == "quick" else 3000})
     shards.append({"kind": "insitu-exports", "n": 200 if tier == "quick" else 3000})
     return shards
 
@@ -131,11 +132,61 @@ def _dig(items, mn, mx, sp):
     return hashlib.sha1(repr(([(i["t"], i["w"], i["stub"]) for i in items], mn, mx, sp)).encode()).hexdigest()[:16]
 
 
+PARTIAL_OPTIONS = [None, {}, {"minPos": None}, {"maxPos": 300}, {"maxPos": 300, "minPos": -40}, {"nodeSpacing": 0}, {"nodeSpacing": 7.5, "minPos": 25},
+                   {"minPos": None, "maxPos": None}, {"maxPos": 120}, {"lineSpacing": 60}, {"lineSpacing": 0, "maxPos": 500}]
+
+
+def gen_direct_sequence(rng):
+    """The layer solver called directly, several times in one process, each time with a PARTIAL option dict: every key
+    that is left out takes its documented default (lower bound 0, no upper bound, spacing 3, line spacing 2)."""
+    calls = []
+    for _ in range(rng.choice([2, 3, 4])):
+        n = rng.choice([1, 2, 3, 5, 8, 15])
+        model = rng.choice(["integers", "clusters", "uniform", "ties"])
+        pos = WL.gen_positions(rng, n, model, lo=-100.0, hi=400.0)
+        labels = [{"pos": p, "w": rng.choice([10, 33.5, 50, 20])} for p in pos]
+        calls.append({"labels": labels, "options": rng.choice(PARTIAL_OPTIONS)})
+    return {"calls": calls}
+
+
+def direct_sequence(ctx, mon, case, which):
+    import labella.removeOverlap as R
+
+    for i, c in enumerate(case["calls"]):
+        nodes = WL.make_nodes(c["labels"])
+        passed = None if c["options"] is None else dict(c["options"])
+        exc = None
+        try:
+            R.removeOverlap(nodes, passed)
+        except BudgetExceeded:
+            exc = "BudgetExceeded"
+        except Exception as e:
+            exc = type(e).__name__
+        layers, mon.orphan_layers = mon.orphan_layers, []
+        wcase = {"calls": case["calls"][: i + 1], "judged_call": i}
+        if "lineSpacing" in (c["options"] or {}):
+            ctx.judge("direct-solver", OUT_OF_SCOPE, None)  # the line spacing is fixed in the statement; the call still happens
+            continue
+        if exc is None and len(layers) != 1:
+            ctx.judge("direct-solver", INCONCLUSIVE, wcase, reason="monitor saw %d layer solves for one direct call" % len(layers))
+            continue
+        rec = {"options": dict(c["options"] or {}), "layers": layers, "exc": exc, "moved_after_solve": [], "target_problems": []}
+        judge_layers(ctx, rec, wcase, "direct-solver" + ("/after-other-options" if i else ""), which)
+        ctx.stratum("direct-solver" + ("-after-other-options" if i else "-first-call"), generated=1, judged=1, held=1)
+
+
 def run_case(ctx, mon, labels, opts, tag, which, stale=None):
     from labella.force import Force
 
     case = {"labels": labels, "options": opts, "tag": tag, "stale": stale}
-    f = Force(dict(opts))
+    keys = sorted(opts)
+    if len(keys) >= 2 and hash(repr(labels[:3])) % 6 == 0:
+        # the same options given in two calls: some to the constructor, the rest to set_options()
+        f = Force({k: opts[k] for k in keys[::2]})
+        f.set_options({k: opts[k] for k in keys[1::2]})
+        ctx.path("options-in-two-calls")
+    else:
+        f = Force(dict(opts))
     nodes = WL.make_nodes(labels)
     if stale:
         # the same label objects were laid out before by another engine/configuration (stale stubs, layers, positions)
@@ -261,6 +312,14 @@ def worker(ctx, shard, which):
                 break
             spec = TL.gen_spec(rng)
             insitu_case(ctx, _M, spec, which)
+    elif shard["kind"] == "direct-solver":
+        rng = ctx.rng("direct-solver")
+        for _ in range(shard["n"]):
+            if ctx.should_stop():
+                break
+            direct_sequence(ctx, mon, gen_direct_sequence(rng), which)
+    elif shard["kind"] == "replay-case" and "calls" in shard["case"]:
+        direct_sequence(ctx, mon, shard["case"], which)
     elif shard["kind"] == "replay-case" and "spec" in shard["case"]:
         from props import export_common as EC
 
